@@ -16,7 +16,8 @@ RULE = ('generated schemas of 2-7 rules (references incl. the same rule twice, r
         'repeated named patterns, multi-option and multi-set constraints, inherited + added constraints, user functions) x '
         'all names of length 0..L+1 over {literals of the schema} + 2 fresh components (bounded-exhaustive per schema, '
         'sampled above 6000 names); distinct = (schema text, name); non-trivial = the name matches some rule or differs '
-        'from a matching name in one component')
+        'from a matching name in one component'
+        '; certificate-hierarchy template (dozens of temporaries), names built from the alternatives plus near misses, abandoned and interleaved match() iterations')
 
 FRESH = [rc.comp(8, b'zz'), rc.comp(8, b'q')]
 
